@@ -9,7 +9,9 @@ pub struct Variant {
 }
 
 fn rings_of(p: &Polygon<f64>) -> Vec<LineString<f64>> {
-    std::iter::once(p.exterior().clone()).chain(p.interiors().iter().cloned()).collect()
+    std::iter::once(p.exterior().clone())
+        .chain(p.interiors().iter().cloned())
+        .collect()
 }
 fn poly_of(mut rings: Vec<LineString<f64>>) -> Polygon<f64> {
     let ext = rings.remove(0);
@@ -85,11 +87,20 @@ pub fn single_deviations(mp: &MP) -> Vec<Variant> {
             }
             let n = r.0.len() - 1;
             for k in 1..n {
-                out.push(Variant { desc: format!("ring-start p{pi} r{ri} k{k}"), mp: with_ring(mp, pi, ri, &|r| rotate_ring(r, k)) });
+                out.push(Variant {
+                    desc: format!("ring-start p{pi} r{ri} k{k}"),
+                    mp: with_ring(mp, pi, ri, &|r| rotate_ring(r, k)),
+                });
             }
-            out.push(Variant { desc: format!("ring-reversed p{pi} r{ri}"), mp: with_ring(mp, pi, ri, &reverse_ring) });
+            out.push(Variant {
+                desc: format!("ring-reversed p{pi} r{ri}"),
+                mp: with_ring(mp, pi, ri, &reverse_ring),
+            });
             for k in 0..=n {
-                out.push(Variant { desc: format!("repeated-vertex p{pi} r{ri} k{k}"), mp: with_ring(mp, pi, ri, &|r| repeat_vertex(r, k)) });
+                out.push(Variant {
+                    desc: format!("repeated-vertex p{pi} r{ri} k{k}"),
+                    mp: with_ring(mp, pi, ri, &|r| repeat_vertex(r, k)),
+                });
             }
         }
         let nh = p.interiors().len();
@@ -98,24 +109,43 @@ pub fn single_deviations(mp: &MP) -> Vec<Variant> {
                 let mut polys = mp.0.clone();
                 let holes: Vec<_> = perm.iter().map(|&i| p.interiors()[i].clone()).collect();
                 polys[pi] = Polygon::new(p.exterior().clone(), holes);
-                out.push(Variant { desc: format!("hole-order p{pi} {:?}", perm), mp: MultiPolygon(polys) });
+                out.push(Variant {
+                    desc: format!("hole-order p{pi} {:?}", perm),
+                    mp: MultiPolygon(polys),
+                });
             }
         }
     }
     if !mp.0.is_empty() {
         let all_rev = MultiPolygon(
-            mp.0.iter().map(|p| Polygon::new(reverse_ring(p.exterior()), p.interiors().iter().map(reverse_ring).collect())).collect(),
+            mp.0.iter()
+                .map(|p| {
+                    Polygon::new(
+                        reverse_ring(p.exterior()),
+                        p.interiors().iter().map(reverse_ring).collect(),
+                    )
+                })
+                .collect(),
         );
-        out.push(Variant { desc: "all-rings-reversed".into(), mp: all_rev });
+        out.push(Variant {
+            desc: "all-rings-reversed".into(),
+            mp: all_rev,
+        });
     }
     if mp.0.len() > 1 {
         for perm in permutations(mp.0.len()) {
-            out.push(Variant { desc: format!("part-order {:?}", perm), mp: MultiPolygon(perm.iter().map(|&i| mp.0[i].clone()).collect()) });
+            out.push(Variant {
+                desc: format!("part-order {:?}", perm),
+                mp: MultiPolygon(perm.iter().map(|&i| mp.0[i].clone()).collect()),
+            });
         }
     }
     out
 }
 
 pub fn apply_named(mp: &MP, desc: &str) -> Option<MP> {
-    single_deviations(mp).into_iter().find(|v| v.desc == desc).map(|v| v.mp)
+    single_deviations(mp)
+        .into_iter()
+        .find(|v| v.desc == desc)
+        .map(|v| v.mp)
 }
